@@ -424,6 +424,12 @@ class AttributeCollection(MutableMapping[int, Attribute]):
             self.add(TreatAsWithdraw(aid))
             return self
 
+        # RFC 7606 section 4: an attribute whose length runs past the attribute block cannot be
+        # taken for a shorter one; the rest of the block can not be located either
+        if length > len(data) - offset:
+            self.add(TreatAsWithdraw(aid))
+            return self
+
         data = data[offset:]
         left = data[length:]
         attribute = data[:length]
